@@ -16,6 +16,8 @@ namespace FxVerif.Model.C20Base
 opaque unknownBool : String → Bool
 /-- same for natural-number valued constructs -/
 opaque unknownNat : String → Nat
+/-- same for string-list valued constructs -/
+opaque unknownList : String → List String
 
 /-- the node configuration read by `NewCheckTxFeees`: key set of `bypassMsgTypesMap`, `maxBypassMsgGasUsage` -/
 structure CheckTxFeees where
